@@ -261,6 +261,7 @@ func init() {
 			"printed with randomised legal white space, tag/attribute-name case and escapes; and an HTML document (<=12 elements, 18 in thorough; duplicate ids/classes, attribute values from the selector pool, text that is empty / white space / NBSP / real, comments) parsed by html.Parse as the pipeline does. " +
 			"Oracle: independent reference evaluator of Selectors 4 over *html.Node applied to every element; reference specificity on the AST (:is/:not/:has = most specific argument, pseudo-element +0,0,1); ParseGroup must accept; printed-back selector must re-parse with the same match vector, specificity and pseudo-element. " +
 			"Attribute values include pairs of ASCII characters 0x20 apart that are not letters ([x] {x} a^b a~b EN@ en` a_b). " +
+			"Class lists may be joined by NBSP / VT / NEL / ideographic / em space (no separators). " +
 			"Non-trivial: some selector of the list matches at least one and not all elements.",
 		ImportantLabels: []string{"selective-match", "simple:not", "simple:is", "simple:has", "simple:empty", "simple:root", "simple:nth", "simple:nth-of-type", "comb:+", "comb:~", "comb:>", "attr-empty-value", "attr-i", "pseudo-element", "selector-list"},
 		Assumptions:     []string{"documents are in no-quirks mode (DOCTYPE present), where class and id selectors are case-sensitive", ":has(x y) is read as a relative selector anchored at the subject (Selectors 4); disagreements there carry their own signature"},
